@@ -222,21 +222,57 @@ def grid_obs(SA):
     return obs
 
 
-def _zero_atoms(r):
-    """atoms that the path established to be zero (a decided `x == 0` / `not x != 0` on a single-term quantity)"""
-    out = set()
-    for ent in r.facts.signs:
-        if not ent[1] <= {"0"}:
+LINEAR_OPS = {"dft", "dft0", "sum", "cumsum", "gather", "scatter", "last", "meanmode"}  # f(0) = 0
+
+
+_zero_atoms = RS.zero_atoms
+
+
+def _ascending_equalities(S, r, exprs):
+    """A path that established `not any(x[1:] <= x[:-1])` for the requested levels x knows x to be strictly ascending, hence
+    free of repetitions: its sorted distinct values are x itself and there are len(x) of them.  -> substitution for the atoms
+    that stand for `np.unique(x)` and its length in the given expressions (empty when the path has no such fact)"""
+    if not isinstance(S.levels, Arr) or S.levels.shape is None:
+        return {}
+    lv = S.levels
+    lvsym = next(iter(lv.sym.top_atoms())) if hasattr(lv, "sym") else None
+    found = False
+    for e, op, d in r.constraints:
+        cm = e.as_mono()
+        qa = cm[1][0][0] if cm is not None and cm[0] == alg.C1 and len(cm[1]) == 1 and cm[1][0][1] == 1 else None
+        if qa is None or qa.kind != "fn" or qa.name not in ("any:<=0", "any:<0") or d or op != "!=":
             continue
-        e = ent[0].expand()
-        if len(e.n) != 1:
+        if qa.name == "any:<0":
+            # only "never descending": free of repetitions as well when the path also established that there are as many
+            # distinct values as entries
+            nu = alg.fn("nunique", lv.val, integer=True, pos=True)
+            if not r.facts.possible((nu - lv.shape[0]).expand()) <= {"0"}:
+                continue
+        inner = qa.args[0].expand() if isinstance(qa.args[0], Expr) else None
+        if inner is None or len(inner.n) != 2:
             continue
-        (mono, c), = e.n.items()
-        # a factor that occurs with a negative power (a denominator) or is flagged positive cannot be the vanishing one
-        cand = [a for a, p in mono if not a.pos and a.kind != "base" and not (isinstance(p, int) and p < 0)]
-        if len(cand) == 1:
-            out.add(cand[0])
-    return out
+        ats = [(m, c) for m, c in inner.n.items()]
+        ok = all(len(m) == 1 and m[0][1] == 1 and m[0][0].kind == "fn" and m[0][0].name == "at" and isinstance(m[0][0].args[0], Expr) and lvsym in m[0][0].args[0].atoms() for m, c in ats)
+        if not ok:
+            continue
+        (m1, c1), (m2, c2) = ats
+        hi, lo = (m1[0][0], m2[0][0]) if c1.re > 0 else (m2[0][0], m1[0][0])
+        if c1.re * c2.re == -1 and (hi.args[1] - lo.args[1]).expand().eq(ONE):
+            found = True
+    if not found:
+        return {}
+    sub = {}
+    for x in exprs:
+        if not isinstance(x, Expr):
+            continue
+        for a in x.expand().atoms():
+            if a.kind == "fn" and a.name == "nunique" and isinstance(a.args[0], Expr) and a.args[0].eq(lv.val):
+                sub[a] = lv.shape[0]
+            if a.kind == "fn" and a.name == "elem" and isinstance(a.args[0], Expr):
+                t = a.args[0].top_atoms()
+                if len(t) == 1 and next(iter(t)).kind == "sym" and str(next(iter(t)).name).startswith("unique(%s)" % (lv.name,)):
+                    sub[a] = lv.val
+    return sub
 
 
 def path_uniformity(SA):
@@ -263,13 +299,34 @@ def path_uniformity(SA):
                 why = None
                 zero = _zero_atoms(ref.r) | _zero_atoms(w.r)
                 zsub = {a: ZERO for a in zero}
+                asc_used = False
                 for nm in ("conc", "flx"):
                     a, b = ref.coeff(nm), w.coeff(nm)
+                    s1, s2 = getattr(ref, nm).shape, getattr(w, nm).shape
+                    for pv in (ref, w):
+                        eqs = _ascending_equalities(S, pv.r, [a, b] + list(s1 or ()) + list(s2 or ()))
+                        if eqs:
+                            asc_used = True
+                            if isinstance(a, Expr) and isinstance(b, Expr):
+                                a, b = a.expand().subs(eqs), b.expand().subs(eqs)
+                            if s1 is not None and s2 is not None:
+                                s1, s2 = tuple(x.subs(eqs) for x in s1), tuple(x.subs(eqs) for x in s2)
                     if isinstance(a, Expr) and isinstance(b, Expr):
                         if zsub:
-                            # where one path established that a quantity vanishes, the two sides need only agree there
+                            # where one path established that a quantity vanishes, the two sides need only agree there;
+                            # a linear operator applied to a vanishing array vanishes (the transform of an all-zero source)
+                            zs2 = dict(zsub)
+                            for x in (a, b):
+                                for at in x.expand().atoms():
+                                    if at.kind == "fn" and at.name in LINEAR_OPS and at.args and isinstance(at.args[0], Expr):
+                                        try:
+                                            if at.args[0].expand().subs(zsub).is_zero():
+                                                zs2[at] = ZERO
+                                        except ZeroDivisionError:
+                                            pass
+                            zsub_ = zs2
                             try:
-                                a, b = a.expand().subs(zsub), b.expand().subs(zsub)
+                                a, b = a.expand().subs(zsub_), b.expand().subs(zsub_)
                             except ZeroDivisionError:
                                 pass  # the vanishing quantity is a divisor on the other path: compared as they are
                         if not a.eq(b):
@@ -279,7 +336,6 @@ def path_uniformity(SA):
                     sa, sb = ref.fields[nm]["synth"], w.fields[nm]["synth"]
                     if sa["dir"] != sb["dir"] or not sa["scale"].eq(sb["scale"]):
                         same, why = False, "%s output transform differs" % nm
-                    s1, s2 = getattr(ref, nm).shape, getattr(w, nm).shape
                     if s1 is None or s2 is None or len(s1) != len(s2) or not all(x.eq(y) for x, y in zip(s1, s2)):
                         same, why = False, "%s shape differs" % nm
                 extra = [d for d in w.r.path if d not in ref.r.path] + [d for d in ref.r.path if d not in w.r.path]
@@ -289,7 +345,7 @@ def path_uniformity(SA):
                 # comparison below can use such a fact only when it is "the entry is zero" (it substitutes zeros): a pair of
                 # paths that differ by any other quantified outcome cannot be compared in this domain
                 def usable(d):
-                    return (d[0].startswith("any:!=0(") and not d[1]) or (d[0].startswith("all:==0(") and d[1])
+                    return (d[0].startswith("any:!=0(") and not d[1]) or (d[0].startswith("all:==0(") and d[1]) or (asc_used and (d[0].startswith("any:<=0(") or d[0].startswith("any:<0(")) and not d[1])
                 quant = [d for d in extra if d[0].startswith("any:") or d[0].startswith("all:")]
                 guessed = [d for d in extra if d[0].startswith("unknown test")]
                 if quant and not any(usable(d) for d in quant):
@@ -755,11 +811,26 @@ def check_C04(P, tier, SA, holder):
                     # control must not depend on the sources (thresholds, masks, branches)
                     srcset = set(a for a in [bg])
                     bad = []
+                    srf = atom_of(S.srf_flx.sym)
+
+                    def mentions_source(e, depth=0):
+                        for a in e.atoms():
+                            if a is bg or a is srf:
+                                return True
+                            if a.kind == "fn" and depth < 6 and any(isinstance(x, Expr) and mentions_source(x, depth + 1) for x in a.args):
+                                return True
+                        return False
+
                     for ent in v.r.facts.signs:
                         ats = ent[0].atoms()
-                        if ent[1] <= {"0"} or ent[1] == {"+", "-"}:
+                        qa = [a for a in ent[0].top_atoms() if a.kind == "fn" and (a.name.startswith("any:") or a.name.startswith("all:"))]
+                        if qa:
+                            # a quantified test: "some / every entry is (non)zero" is a test against zero, anything else is a threshold
+                            if all(a.name in ("any:!=0", "all:==0", "any:==0", "all:!=0") for a in qa):
+                                continue
+                        elif ent[1] <= {"0"} or ent[1] == {"+", "-"}:
                             continue  # a test against zero: compatible with linearity iff both sides agree at zero, which R-PATHS decides
-                        if bg in ats or any(a.kind == "fn" and (a.name in ("dft", "dft0") or (a.name in ("elem", "at", "sum", "abs", "max", "min") and a.args and isinstance(a.args[0], Expr) and atom_of(S.srf_flx.sym) in a.args[0].atoms())) for a in ats):
+                        if mentions_source(ent[0]):
                             bad.append(repr(ent[0])[:120])
                     R.add(req_ob("R-LIN", site, "no branch or mask on this path is decided by the values of the sources", not bad, detail="; ".join(bad[:3]) or None, key={"clause": "control"}))
                     for nm in ():
